@@ -161,7 +161,7 @@ static void mutate(int fn) {
     int nm = 1 + (int)rng_below(&R, 3);
     for (int m = 0; m < nm; m++) {
         size_t at = MBN ? rng_below(&R, (uint32_t)MBN + 1) : 0;
-        switch (rng_below(&R, 15)) {
+        switch (rng_below(&R, 16)) {
         case 0: MBN = at; break;                                                             /* truncate anywhere */
         case 1: if (MBN) { size_t a = rng_below(&R, (uint32_t)MBN), l = 1 + rng_below(&R, 20); if (a + l > MBN) l = MBN - a; unsigned char *cp = vf_xdup(MB + a, l); mb_insert(at > MBN ? MBN : at, cp, l); hm_free(cp); } break;   /* duplicate */
         case 2: if (MBN) { size_t a = rng_below(&R, (uint32_t)MBN), l = 1 + rng_below(&R, 10); if (a + l > MBN) l = MBN - a; memmove(MB + a, MB + a + l, MBN - a - l); MBN -= l; } break;   /* delete */
@@ -176,6 +176,13 @@ static void mutate(int fn) {
         case 10: if (MBN) MB[rng_below(&R, (uint32_t)MBN)] = 0; break;                         /* embedded NUL (file parsers) */
         case 11: { char inc[80]; snprintf(inc, sizeof inc, "\n@INCLUDE %s\n", (const char *[]){"/nonexistent/file", "", "                ", "missing.conf"}[rng_below(&R, 4)]); mb_insert(at > MBN ? MBN : at, inc, strlen(inc)); break; }
         case 12: { size_t l = 4090 + rng_below(&R, 12); char *x = hm_alloc(l + 16); memset(x, '/', l); memcpy(x, "\n@INCLUDE ", 10); x[l - 1] = '\n'; mb_insert(at > MBN ? MBN : at, x, l); hm_free(x); break; }   /* over-long include path */
+        case 14: if (fn == F_APACHE) { /* very deep section nesting: N unclosed section tags (registered name of the seed document, or an unknown one for the default handler / IGNOREUNKNOWN) */
+                  size_t N = (size_t[]){200, 300, 3000, 20000}[rng_below(&R, 4)]; const char *nm = NULL; char nmb[64];
+                  for (size_t i = 0; i + 3 < MBN && !nm; i++) if ((i == 0 || MB[i - 1] == '\n') && MB[i] == '<' && MB[i + 1] != '/') { size_t j = i + 1, k = 0; while (j < MBN && k < 60 && MB[j] != '>' && MB[j] != ' ' && MB[j] != '\t' && MB[j] != '\n') nmb[k++] = (char)MB[j++]; nmb[k] = 0; if (k) nm = nmb; }
+                  if (!nm || rng_chance(&R, 1, 3)) nm = "a";
+                  size_t ll = strlen(nm) + 3; char *x = hm_alloc(N * ll + 1); for (size_t i = 0; i < N; i++) { x[i * ll] = '<'; memcpy(x + i * ll + 1, nm, ll - 3); x[i * ll + ll - 2] = '>'; x[i * ll + ll - 1] = '\n'; }
+                  size_t where = rng_chance(&R, 1, 2) ? 0 : (at > MBN ? MBN : at); while (where > 0 && where < MBN && MB[where - 1] != '\n') where--;
+                  mb_insert(where, x, N * ll); hm_free(x); vf_count("deeply_nested_section_documents", 1); } break;
         case 13: if (CUR_BN) { /* include line naming an EXISTING file, padded with blanks to the neighbourhood of PATH_MAX (the blanks are trimmed before the file is opened) */
                   size_t L = rng_chance(&R, 3, 4) ? 4078 + rng_below(&R, 24) : 3000 + rng_below(&R, 3000), bl = strlen(CUR_BN); if (L < bl + 2) L = bl + 2;
                   size_t lead = rng_chance(&R, 1, 2) ? 0 : rng_below(&R, (uint32_t)(L - bl)); char *x = hm_alloc(L + 16); memcpy(x, "\n@INCLUDE ", 10); memset(x + 10, rng_chance(&R, 1, 4) ? '\t' : ' ', L); memcpy(x + 10 + lead, CUR_BN, bl); x[10 + L] = '\n';
